@@ -305,8 +305,23 @@ pub fn hook_gen_like_cli(dir: &std::path::Path, src: &str, target: &str, toml: O
 
 /// `None` when both paths agree; otherwise what differs.
 pub fn cli_tie(dir: &std::path::Path, src: &str, target: &str, toml: Option<&str>, cli: &[String]) -> Option<serde_json::Value> {
+    cli_tie_spelled(dir, src, target, target, toml, cli)
+}
+
+/// Other spellings the command line accepts for a backend: the pre-HIR names with a trailing `2`, and `py-nanobind`.
+pub fn spellings(target: &str) -> Vec<String> {
+    let mut v = vec![format!("{target}2")];
+    if target == "nanobind" {
+        v.push("py-nanobind".into());
+        v.push("py-nanobind2".into());
+    }
+    v
+}
+
+/// as `cli_tie`, with the backend spelled `spelled` on the command line and `target` (its canonical name) in process
+pub fn cli_tie_spelled(dir: &std::path::Path, src: &str, target: &str, spelled: &str, toml: Option<&str>, cli: &[String]) -> Option<serde_json::Value> {
     use serde_json::json;
-    let real = cli_gen(&dir.join("cli"), src, target, toml, cli);
+    let real = cli_gen(&dir.join("cli"), src, spelled, toml, cli);
     if !real.ran {
         return Some(json!({"problem": "the diplomat-tool binary could not be run", "detail": real.stderr}));
     }
@@ -353,6 +368,23 @@ pub fn cli_tie(dir: &std::path::Path, src: &str, target: &str, toml: Option<&str
 }
 
 /// `cli_tie` under the configuration `default_config()` gives the in-process runs
+/// Every other spelling of every backend on a bridge whose attributes name backends: the binary under the alias
+/// must produce what the pipeline produces under the canonical name (same disabled items, same renames, same symbols).
+pub fn alias_probe(rep: &mut crate::report::Report, id: &str, src: &str) {
+    for t in BACKENDS {
+        for sp in spellings(t) {
+            rep.oracle_runs += 1;
+            rep.count("probe:backend-spellings");
+            if let Some(mut d) = cli_tie_spelled(&crate::util::workdir(&format!("{id}alias")), src, t, &sp, None, &["lib_name=somelib".to_string(), "kotlin.domain=dev.diplomattest".to_string()]) {
+                d["source"] = serde_json::json!(src);
+                rep.oracle_fail(&format!("({} probe backend-spelling {sp} for {t})", id.to_lowercase()), "under another accepted spelling of the backend name the tool does not produce the backend's output (attribute conditions, symbols)", d);
+            }
+        }
+    }
+}
+
+pub const ALIAS_SRC: &str = "#[diplomat::bridge]\nmod ffi {\n    #[diplomat::opaque]\n    pub struct Gauge(u8);\n    impl Gauge {\n        pub fn read(&self) -> u8 { self.0 }\n        #[diplomat::attr(any(c, cpp), disable)]\n        pub fn not_in_c(&self) -> u8 { 1 }\n        #[diplomat::attr(js, disable)]\n        pub fn not_in_js(&self) -> u8 { 2 }\n        #[diplomat::attr(not(dart), disable)]\n        pub fn only_dart(&self) -> u8 { 3 }\n        #[diplomat::attr(any(kotlin, nanobind), disable)]\n        pub fn not_in_kt_py(&self) -> u8 { 4 }\n        #[diplomat::attr(any(cpp, js, dart, nanobind), rename = \"renamed_{0}\")]\n        pub fn plain(&self) -> u8 { 5 }\n    }\n    #[diplomat::attr(not(any(js, demo_gen)), disable)]\n    #[diplomat::opaque]\n    pub struct WebOnly(u8);\n    impl WebOnly {\n        pub fn get(&self) -> u8 { self.0 }\n    }\n    #[diplomat::attr(nanobind, disable)]\n    pub enum NotPy { A, B }\n}\n";
+
 pub fn cli_tie_default(dir: &std::path::Path, src: &str, target: &str) -> Option<serde_json::Value> {
     cli_tie(dir, src, target, None, &["lib_name=somelib".to_string(), "kotlin.domain=dev.diplomattest".to_string()])
 }
